@@ -125,6 +125,21 @@ pub fn run(ctx: &Ctx, rep: &mut Report) {
             continue;
         }
         let probe_tok = Tok { kind: TokKind::Probe, addr: toks[4].addr.clone(), admin: admin.clone() };
+        // one universe in five works with many tokens (13 instead of 5): whatever the service keeps
+        // per token must not depend on how many tokens it has seen
+        if rng.chance(1, 5) {
+            for k in 0..8usize {
+                let salt = rng.bytes32();
+                let dep = k % 2;
+                let o = w.do_deploy(&users[dep], &salt, b"native-extra", b"XTR", 7, 100, None, Auth::Only(vec![users[dep].clone()]));
+                if let Ok(id) = o.res {
+                    let addr = w.token_addr(&id);
+                    w.model.add(&addr, &users[dep], 100);
+                    toks.push(T { id, addr, lock: false, probe: false, label: "native-extra" });
+                }
+            }
+            rep.count("universe:many-tokens");
+        }
         for us in &users {
             let g = *rng.pick(&[0i128, 1, 50]);
             if g > 0 {
@@ -149,13 +164,22 @@ pub fn run(ctx: &Ctx, rep: &mut Report) {
         let mut sent: BTreeMap<[u8; 32], i128> = BTreeMap::new();
         let mut received: BTreeMap<[u8; 32], i128> = BTreeMap::new();
         let mut direct: BTreeMap<[u8; 32], i128> = BTreeMap::new(); // minter mints - user burns
-        let initial_supply: BTreeMap<[u8; 32], i128> = toks.iter().filter(|t| !t.lock).map(|t| (t.id, if t.label == "native-A" { 1000 } else { 0 })).collect();
+        let initial_supply: BTreeMap<[u8; 32], i128> = toks.iter().filter(|t| !t.lock).map(|t| (t.id, if t.label == "native-A" { 1000 } else if t.label == "native-extra" { 100 } else { 0 })).collect();
         let mut probe_refuses = false;
         let mut alive = true;
         let mut window: Option<Address> = None;
         let mut executed_inbound: Vec<(Vec<u8>, Vec<u8>)> = Vec::new(); // (message id, payload)
         // scripted follow-ups: a valid transfer toward X, X loses its trust, the same transfer again
         let mut script: std::collections::VecDeque<(&str, Vec<u8>)> = std::collections::VecDeque::new();
+        // in the many-token universes every extra token is sent once, in turn, and then the first
+        // ones again (token index for the scripted outbound transfers, front first)
+        let mut forced_tokens: std::collections::VecDeque<usize> = std::collections::VecDeque::new();
+        if toks.len() > 5 {
+            for i in (5..toks.len()).chain(5..8) {
+                script.push_back(("outbound", b"ethereum".to_vec()));
+                forced_tokens.push_back(i);
+            }
+        }
         for _ in 0..36 {
             if !alive {
                 alive = false;
@@ -206,6 +230,34 @@ pub fn run(ctx: &Ctx, rep: &mut Report) {
                     }
                 }
             }
+            // Now and then somebody names the service itself as the payer of the gas for a remote
+            // deployment, in a token the service holds in custody, and signs nothing (or signs as a
+            // stranger): what is locked for the holders is not the service's to spend.
+            if rng.chance(1, 12) {
+                let locked: Vec<T> = toks.iter().filter(|t| t.lock && w.model.balance(&t.addr, &w.its) > 0).cloned().collect();
+                let trusted_now: Vec<Vec<u8>> = w.model.trusted.iter().cloned().collect();
+                if let (Some(lt), false) = (locked.first(), trusted_now.is_empty()) {
+                    let custody = w.model.balance(&lt.addr, &w.its);
+                    let amount = 1 + rng.below(custody.min(1 << 40) as u64) as i128;
+                    let dest = rng.pick(&trusted_now).clone();
+                    let its = w.its.clone();
+                    let auth = if rng.chance(1, 2) { Auth::Nobody } else { Auth::AllBy(w.stranger.clone()) };
+                    let o = w.do_deploy_remote_canonical(&lt.addr, &dest, &its, &lt.addr, amount, auth);
+                    rep.count("op:remote-deploy-paid-by-the-service-itself");
+                    rep.eval("remote-deploy-paid-by-the-service-itself", &format!("self-payer|{}|{}", lt.label, o.ok()), true);
+                    rep.step(format!("deploy_remote_canonical_token({}) naming the service as gas payer of {} of that token (custody {}) -> ok={}", lt.label, amount, custody, o.ok()));
+                    if let Some(l) = &o.leak {
+                        rep.violation("failed-request-left-trace:remote-deploy-paid-by-the-service-itself", l.clone());
+                        alive = false;
+                        break;
+                    }
+                    if o.ok() {
+                        rep.violation("custody-spent-as-gas", format!("a remote deployment that nobody paid for went through with {} of the locked {} as its gas", amount, lt.label));
+                        alive = false;
+                        break;
+                    }
+                }
+            }
             let scripted = script.pop_front();
             let op = match &scripted {
                 Some((o, _)) => *o,
@@ -213,7 +265,16 @@ pub fn run(ctx: &Ctx, rep: &mut Report) {
             };
             let mut t = toks[rng.usize(toks.len())].clone();
             let mut user = users[rng.usize(users.len())].clone();
-            if let Some(("outbound", _)) = &scripted {
+            let forced = if matches!(&scripted, Some(("outbound", _))) { forced_tokens.pop_front() } else { None };
+            if let Some(i) = forced {
+                t = toks[i].clone();
+                if let Some(uu) = users.iter().find(|uu| w.model.balance(&t.addr, uu) >= 1) {
+                    user = uu.clone();
+                    if w.model.balance(&w.gas.addr, &user) < 1 {
+                        w.fund_gas(&user, 5);
+                    }
+                }
+            } else if let Some(("outbound", _)) = &scripted {
                 // a holder who can afford both the transfer and the gas
                 'find: for tt in &toks {
                     for uu in &users {
